@@ -83,6 +83,25 @@ def gen_case(rng: random.Random, tier: str):
     return c
 
 
+def stall_case(rng, ending, secs, n=600, size=1000, at=None):
+    """a stalled parent: the parent's handler blocks for `secs` seconds at its `at`-th record (a slow disk, a
+    network log sink, a paused terminal) while the child, which has emitted far more than the pipe holds
+    shortly before its target ended and has delivered its result, can only flush as fast as the parent reads"""
+    c = _mk(rng, n, size, ending=ending, gap=0, root_level=10)
+    c['stall'] = dict(at=rng.choice([0, 3, 40]) if at is None else at, secs=secs)
+    c['hang_bound'] = HANG_BOUND + 2 * secs
+    return c
+
+
+def burst_case(rng, ending, n, secs=2.0):
+    """a burst: `n` small records in a tight loop while the parent's handler is stalled at its first record, so
+    that the child gets `n` records ahead of the parent (nothing may be dropped however far ahead it gets)"""
+    c = _mk(rng, n, 10, ending=ending, gap=0, root_level=10)
+    c['stall'] = dict(at=0, secs=secs)
+    c['hang_bound'] = HANG_BOUND + 2 * secs + n / 2500.0
+    return c
+
+
 def servlet_case(rng, n, size):
     return dict(via='servlet', n=n, size=size, sizes=None, ending='ret', first='join', root_level=rng.choice([10, 30]),
                 lvl_seed=rng.randrange(1000), gap=0, late=False, K=rng.choice([1, 7]), seed=rng.randrange(1 << 30),
@@ -119,12 +138,14 @@ def expected(case):
 def vol_class(case):
     """class for the hang-bound median: variant x order of magnitude of the bytes logged"""
     vol = n_total(case) * (case['size'] if not case.get('sizes') else max(case['sizes'])) + 200 * n_total(case)
-    return f"{case['via']}:{len(str(vol))}{':slow' if case.get('slow') else ''}"
+    return f"{case['via']}:{len(str(vol))}{':slow' if case.get('slow') else ''}{':stall' if case.get('stall') else ''}"
 
 
 def case_class(case):
     vol = n_total(case) * (case['size'] if not case.get('sizes') else sum(case['sizes']) // len(case['sizes']))
-    return (f"{case['via']}:{'small' if vol < 30000 else 'beyond-pipe'}{'-lowlevel' if case.get('low') else ''}:"
+    st = case.get('stall')
+    tag = '' if not st else ('-burst' if n_total(case) >= 10000 else '-stalled-parent')
+    return (f"{case['via']}:{'small' if vol < 30000 else 'beyond-pipe'}{'-lowlevel' if case.get('low') else ''}{tag}:"
             f"{case['ending']}{':late' if case['late'] else ''}")
 
 
@@ -148,10 +169,11 @@ def monitor(case, res):
     dups = [i for i in got if i in seen or seen.add(i)]
     if dups:
         mon.append(dict(prop='C20', rule='duplicate', detail=f'handled more than once: {dups[:10]}; class {cls}'))
-    extra = [i for i in got if i not in set(exp)]
+    sexp = set(exp)
+    extra = [i for i in got if i not in sexp]
     if extra:
         mon.append(dict(prop='C20', rule='extra', detail=f'handled although below the parent\'s level (or never emitted): {extra[:10]}; class {cls}'))
-    uniq = [i for i in dict.fromkeys(got) if i in set(exp)]
+    uniq = [i for i in dict.fromkeys(got) if i in sexp]
     if uniq != sorted(uniq):
         mon.append(dict(prop='C20', rule='order', detail=f'not in emission order: {[a for a, b in zip(uniq, sorted(uniq)) if a != b][:10]}; class {cls}'))
     missing = [i for i in exp if i not in seen]
@@ -301,6 +323,9 @@ def _inner(case):
                 return      # mpservice's own records (servlet start-up etc.)
             if case.get('slow'):
                 time.sleep(case['slow'])
+            st = case.get('stall')
+            if st and len(handled) == st['at']:
+                time.sleep(st['secs'])      # the parent's handler is stuck for a while
             try:
                 handled.append(int(str(record.args[0]) if record.args else record.getMessage().split('|')[0]))
             except Exception:
